@@ -94,6 +94,7 @@ func (r *Route) addTarget(service string, targetURL *url.URL, fixedWeight float6
 		if err = t.ProcessAccessRules(); err != nil {
 			log.Printf("[ERROR] failed to process access rules: %s",
 				err.Error())
+			t.denyAll()
 		}
 
 		t.AuthScheme = opts["auth"]
